@@ -53,6 +53,9 @@ func (ex *Executor) endSegment(st *State, fr *Frame, to string) {
 	for _, r := range cands {
 		c, ok, err := ex.matchRow(st, fr, r, evs)
 		if err != nil {
+			if debugRows {
+				fmt.Printf("DEBUG row %s: %v\n", r.Name, err)
+			}
 			if strings.Contains(err.Error(), "unknown identifier") {
 				// the row talks about a variable that does not exist on this path (e.g. the loop variable on the
 				// exit path): it is not a candidate here; a row that is a candidate nowhere is reported as dead.
